@@ -42,7 +42,12 @@ impl Interpreter {
                 self.state.clone()
             }
             ScriptBit::If { code, pass, fail } => {
-                let predicate = self.state.stack.pop_bool()?;
+                let top_is_true = self.state.stack.pop_bool()?;
+                // OP_NOTIF runs its first branch when the top of the stack is false
+                let predicate = match code {
+                    OpCodes::OP_NOTIF => !top_is_true,
+                    _ => top_is_true,
+                };
                 self.state.executed_opcodes.push(*code);
 
                 if predicate {
